@@ -94,6 +94,10 @@ func RandType(r *rand.Rand, depth int, o TypeOpts) reflect.Type {
 		if o.NoPointers {
 			return leafType(r, o)
 		}
+		if r.Intn(4) == 0 {
+			// two levels of pointers directly above the pointee
+			return reflect.PtrTo(reflect.PtrTo(RandType(r, depth-1, o)))
+		}
 		return reflect.PtrTo(RandType(r, depth-1, o))
 	case 8, 9, 10:
 		if !o.NoRecursive && r.Intn(8) == 0 {
